@@ -815,6 +815,16 @@ class _ExprNorm(ast.NodeTransformer):
                 else:
                     args.append(a)
             node.args = args
+        # inspect.getmembers(obj, pred) -> [(n, v) for n, v in inspect.getmembers(obj) if pred(v)]     (documented behaviour)
+        if f in ("inspect.getmembers", "getmembers") and len(node.args) == 2 and not node.keywords and \
+                (isinstance(node.args[1], ast.Lambda) or norm._attr_chain(node.args[1]) is not None):
+            self._fresh[0] += 1
+            a_, b_ = f"f{self._fresh[0]}n_", f"f{self._fresh[0]}v_"
+            test = self.visit(ast.Call(func=node.args[1], args=[ast.Name(id=b_, ctx=ast.Load())], keywords=[]))
+            comp = ast.ListComp(elt=ast.Tuple(elts=[ast.Name(id=a_, ctx=ast.Load()), ast.Name(id=b_, ctx=ast.Load())], ctx=ast.Load()), generators=[
+                ast.comprehension(target=ast.Tuple(elts=[ast.Name(id=a_, ctx=ast.Store()), ast.Name(id=b_, ctx=ast.Store())], ctx=ast.Store()),
+                                  iter=ast.Call(func=node.func, args=[node.args[0]], keywords=[]), ifs=[test], is_async=0)])
+            return ast.copy_location(self._fuse(comp), node)
         # map(f, xs) -> (f(x) for x in xs)      (f a plain callable reference)
         if f == "map" and len(node.args) == 2 and not node.keywords and norm._attr_chain(node.args[0]) is not None:
             self._fresh[0] += 1
@@ -923,6 +933,12 @@ class _ExprNorm(ast.NodeTransformer):
         """(f(v) for v in (g(w) for w in S if C) if D)  ->  (f(g(w)) for w in S if C if D[g(w)])   for a pure inner comprehension:
         a pipeline of generators / lists and the fused comprehension yield the same elements in the same order"""
         self.generic_visit(node)
+        for g_ in node.generators:
+            # `if a and b` filters like `if a if b`
+            flat = []
+            for c_ in g_.ifs:
+                flat += list(c_.values) if isinstance(c_, ast.BoolOp) and isinstance(c_.op, ast.And) else [c_]
+            g_.ifs = flat
         while True:
             g0 = node.generators[0]
             inner = g0.iter
@@ -939,7 +955,8 @@ class _ExprNorm(ast.NodeTransformer):
                         return False
                     callee_ids = {id(x) for c in ast.walk(e) if isinstance(c, ast.Call) for x in ast.walk(c.func)}
                     for n in ast.walk(e):
-                        if isinstance(n, ast.Name) and isinstance(n.ctx, ast.Load) and n.id not in tn and id(n) not in callee_ids and n.id not in norm.PURE_FUNCS:
+                        if isinstance(n, ast.Name) and isinstance(n.ctx, ast.Load) and n.id not in tn and id(n) not in callee_ids and n.id not in norm.PURE_FUNCS \
+                                and not (n.id.startswith("__") and n.id.endswith("__")) and not n.id.isupper():
                             return False
                     return True
                 if len(node.generators) != 1 or not all(element_only(e) for e in outer_parts):
@@ -1473,9 +1490,10 @@ class Canon:
             return self.cache[key]
         b = [copy.deepcopy(s) for s in real_body(fn)]
         b = strip_annotations(b)
+        b = norm.rename_param_rebinds(b)
         b = norm.merge_display_building(b)
         b = self._inline_unknown_constants(b, module, fn)
-        b = norm.unroll_literal_loops(b)
+        b = norm.merge_display_building(norm.unroll_literal_loops(b))
         b = [ast.fix_missing_locations(_ExprNorm().visit(s_)) for s_ in b]         # expression idioms first (map(f, xs), applied lambdas of table rows): helpers in them are then seen
         # nested function definitions that get inlined are dropped afterwards
         b = lower_matches(b, self._match_args(module, fn))
@@ -1489,6 +1507,7 @@ class Canon:
         inl = Inliner(look)
         b = inl.rec(b, inl.depth, (fn.name,))
         b = self._inline_unknown_constants(b, module, fn)      # .. those read by the helpers that were just inlined
+        b = norm.merge_display_building(b)
         b = lift_walrus(lift_ifexp(b))          # conditional expressions returned by inlined helpers
         used = {n.id for s in b for n in ast.walk(s) if isinstance(n, ast.Name)} | {n.func.id for s in b for n in ast.walk(s) if isinstance(n, ast.Call) and isinstance(n.func, ast.Name)}
         b = [s for s in b if not (isinstance(s, ast.FunctionDef) and s.name not in used)]
@@ -1518,6 +1537,17 @@ class Canon:
             ast.fix_missing_locations(s)
         self.cache[key] = b
         return b
+
+    def module_expr(self, module, expr: ast.expr, **kw) -> ast.expr:
+        """canonical form of a module-level expression (as the value returned by a function of that module)"""
+        f = ast.FunctionDef(name="_module_level_", args=ast.arguments(posonlyargs=[], args=[], vararg=None, kwonlyargs=[], kw_defaults=[], kwarg=None, defaults=[]),
+                            body=[ast.Return(value=copy.deepcopy(expr))], decorator_list=[], returns=None, type_comment=None, type_params=[])
+        ast.copy_location(f, expr)
+        ast.fix_missing_locations(f)
+        b = self.body(f, module, None, **kw)
+        if len(b) == 1 and isinstance(b[0], ast.Return) and b[0].value is not None:
+            return b[0].value
+        raise NoCanon("module-level expression did not stay an expression")
 
     def fn(self, fn, module, cls=None, **kw) -> ast.FunctionDef:
         """a FunctionDef with the canonical body (same name / args)"""
